@@ -107,7 +107,7 @@ func init() {
 	}
 }
 var sufPool = []string{".foo", "_x", ".json"}
-var verbPool = []string{":get", ":cancel", ":x"}
+var verbPool = []string{":get", ":cancel", ":x", ":ab"}
 
 // the tail of the pool holds names that contain / are contained in other names (Allow lists are sets of whole names)
 var methodPool = []string{"GET", "POST", "PUT", "PATCH", "DELETE", "HEAD", "OPTIONS", "X-CUSTOM", "UNLOCK", "LOCK", "GETALL", "PU"}
